@@ -247,6 +247,7 @@ def main():
             "samples": stats["samples"][:6] or [{"note": "no case was run"}],
             "traces_validated_against_impl": stats["traces"],
             "streams": stats["streams"],
+            "cases_accepted_under_second_reading": stats.get("alt_readings", 0),
             "exhaustive": False,
         },
         "assumptions": spec["assumptions"],
